@@ -1,10 +1,25 @@
-
-    ON ERROR GOTO ErrTrap
-    FOR I = 1 TO 3
-        PRINT I / (I - 1)
-    NEXT
-    END
-
-    ErrTrap:
-        RESUME NEXT
-    
+DIM SHARED A%(2)
+DIM SHARED Z%, K%, IX%, M%, W%, X%, S$, HQ%, HZ%
+Z% = 0
+K% = 1
+IX% = 5
+M% = -1
+ON ERROR GOTO H
+SELECT CASE 1
+CASE 1
+  X% = 6 / Z%
+  PRINT "a"; W%
+  PRINT "b"; W%; ERR
+CASE ELSE
+  PRINT "case else"
+END SELECT
+After:
+PRINT "done"; ERR; W%; X%
+END
+H:
+PRINT "h"; ERR
+Z% = 2
+K% = 0
+IX% = 1
+M% = 1
+RESUME
